@@ -715,6 +715,7 @@ func (m c19) checkTable(c *fw.Ctx, tab []c19Feat, e *c19Expr) {
 		c.ViolateX("Filter:"+panicClass(site, val), enc, "no panic", fmt.Sprint(val), stack, nil)
 		return
 	}
+	c.Hold(enc, func() string { return heldSeq(gts.New(nil, out, nil)) })
 	var want []gts.Feature
 	for i := range snap {
 		if accept[i] {
